@@ -610,6 +610,17 @@ package trzsz
 //@   # C10: once the stop flag was seen nothing more is taken from the stream
 //@   ensures [C10] result_of("trzszTransfer.checkStop", 0, 0) != nil ==> r1 != nil
 //@   ensures [C10] result_of("trzszTransfer.checkStop", 0, 0) != nil ==> recvd[t.buffer] == old(recvd)[t.buffer]
+//@   # C10: a read that failed (the blocked reader is woken by a stop with the plain stop error) is followed
+//@   # by a second look at the stop flags, and what that look returns wins: this is what turns the wake-up
+//@   # into "stopped and deleted" when that was the choice - on both the Windows-framing and the normal path
+//@   ghostvar readFailed bool = false
+//@   ghostvar looks int = 0
+//@   ghostvar lastLook error
+//@   after trzszBuffer.readLineOnWindows set readFailed = r1 != nil
+//@   after trzszBuffer.readLine set readFailed = r1 != nil
+//@   after trzszTransfer.checkStop set looks = looks + 1
+//@   after trzszTransfer.checkStop set lastLook = r0
+//@   ensures [C10] readFailed ==> looks == 2 && (lastLook != nil ==> r1 == lastLook)
 //@ end
 
 //@ # C02: a line is accepted only if its type field is exactly the expected one; what is returned is
@@ -666,6 +677,11 @@ package trzsz
 //@     invariant forall w int {wlog[w]} :: w != dst ==> wlog[w] == old(wlog)[w]
 //@     invariant forall w int {wlen[w]} :: w != dst ==> wlen[w] == old(wlen)[w]
 //@     decreases l - m
+//@   # the rest is re-presented after a short count as often as it takes: writeAll gives up only when the
+//@   # writer itself reported an error (a writer that takes a buffer in many small pieces is not an error)
+//@   ghostvar werr bool = false
+//@   after io.Writer.Write set werr = r1 != nil
+//@   ensures [C15,C04,C05,C13] r0 != nil ==> werr
 //@ end
 //@ func trzszTransfer.writeAll
 //@   assigns wlog, wlen
@@ -1319,8 +1335,6 @@ package trzsz
 //@ # ASSUMED: runs "tmux refresh-client"; no effect on memory
 //@ func tmuxRefreshClient trusted pure
 //@ end
-//@ func TrzszRelay.resetToStandby pure
-//@ end
 
 //@ # The input pump: every byte read from the client is either parked (while a handshake is in
 //@ # progress) or passed on to the server side - never both, never neither: the byte counts balance
@@ -1780,6 +1794,15 @@ package trzsz
 //@   loop 1
 //@     invariant detector.uniqueIDMap != nil && detector.relay
 //@     invariant [C14] !sawEnd
+//@   # C13: the status is switched to "handshaking" BEFORE the trigger chunk is forwarded to the client and
+//@   # before the handshake worker is started - in this pump, not in the worker (whose start is asynchronous):
+//@   # the client's answer can then only be parked, never slip through to the server
+//@   ghostvar switched bool = false
+//@   after io.Reader.Read set switched = false
+//@   after atomic.Int32.Store set switched = p0 == kRelayHandshaking
+//@   before atomic.Int32.Store assert [C13] recv == r.relayStatus && p0 == kRelayHandshaking
+//@   before go:TrzszRelay.handshake assert [C13,C06] switched
+//@   before send:r.osStdoutChan assert [C13,C06] result_of("trzszDetector.detectTrzsz", 0, 1) != nil ==> switched
 //@ end
 
 //@ # The connecting side of the tunnel: the connection is handed on for adoption only after our greeting
@@ -2301,4 +2324,23 @@ package trzsz
 //@ func TrzszFilter.confirmStopTransfer
 //@   before trzszTransfer.pauseTransferringFiles assert [C18] result_of("atomic.Pointer.CompareAndSwap[io.PipeWriter]", 0, 0)
 //@   before go:TrzszFilter.confirmStopTransfer$1 assert [C18] result_of("atomic.Pointer.CompareAndSwap[io.PipeWriter]", 0, 0)
+//@ end
+
+//@ # Return to standby (end of every transfer, failed handshake, Ctrl-C): only the call whose compare-and-swap
+//@ # moved the status does the work, and that call leaves no tunnel state of the finished transfer behind -
+//@ # the listener (if any) is closed and forgotten, the tunnel relay (if any) detached and forgotten, and the
+//@ # "tunnel connected" flag is lowered, so the next transfer starts from the same state as the first.
+//@ func TrzszRelay.resetToStandby pure
+//@   before atomic.Int32.CompareAndSwap assert [C14,C13] recv == r.relayStatus && p0 == status && p1 == kRelayStandBy
+//@   ghostvar flagCleared bool = false
+//@   after atomic.Bool.Store set flagCleared = flagCleared || !p0
+//@   before atomic.Bool.Store assert [C14,C17] recv == r.tunnelConnected && !p0
+//@   ghostvar listenerDropped bool = false
+//@   after atomic.Pointer.Store[net.Listener] set listenerDropped = p0 == nil
+//@   ghostvar relayDropped bool = false
+//@   after atomic.Pointer.Store[github.com/trzsz/trzsz-go/trzsz.tunnelRelay] set relayDropped = p0 == nil
+//@   ensures [C14,C17] result_of("atomic.Int32.CompareAndSwap", 0, 0) ==> flagCleared
+//@   ensures [C14,C17] result_of("atomic.Int32.CompareAndSwap", 0, 0) ==> \
+//@       (result_of("atomic.Pointer.Load[net.Listener]", 0, 0) != nil ==> listenerDropped) && \
+//@       (result_of("atomic.Pointer.Load[github.com/trzsz/trzsz-go/trzsz.tunnelRelay]", 0, 0) != nil ==> relayDropped)
 //@ end
